@@ -369,6 +369,10 @@ def run(repo, rep):
     rep.clause("C08-u", "per-group slices of per-channel quantisation vectors are taken under the dimensionality test of the member they slice (grouped convolutions pack their own channels' scales)")
     rep.clause("C08-v", "a weight buffer is sized from the encoded tensor it receives (size argument of Scheduler.buffer_tensor derives from its source tensor): the recorded double-buffer sizes bound every slice that occupies the buffer")
     rule_round10(repo, rep)
+    rep.clause("C08-w", "the weight section decodes to the weights that went in: create_palette executed on five histograms - direct offset within its 5-bit field, PALBITS covers every code [rule shared with C07-s]")
+    from . import c07 as _c07
+
+    rep.run_borrowed(_c07, {"C07-s": "C08-w"}, repo)
     rule_round9(repo, rep)
     rule_max_range_bytes(repo, rep)
     rule_round5(repo, rep)
